@@ -11,7 +11,7 @@ import darr
 
 def main():
     job = json.load(sys.stdin)
-    a = darr.Array(job['path'], accessmode='r+')
+    a = darr.Array(job['path'], accessmode=job.get('mode', 'r+'))
     gens = []
     ctxs = []
     outs = []
@@ -32,8 +32,8 @@ def main():
         elif k == 'close':
             gens[act[1]].close()
             outs.append([0])
-        elif k == 'enter':
-            cm = a.open_array()
+        elif k in ('enter', 'enterrw'):
+            cm = a.open_array(accessmode='r+') if k == 'enterrw' else a.open_array()
             cm.__enter__()
             ctxs.append(cm)
             outs.append([0])
